@@ -123,34 +123,47 @@ pub struct Io {
     pub ctl: Option<Arc<Mutex<Ctl>>>,
     /// writes that would make the "file" longer than this fail like a full disk
     pub cap: usize,
+    /// when set, the bytes live in this real file instead of `data`
+    pub file: Option<Arc<Mutex<std::fs::File>>>,
+    pub file_path: Option<std::path::PathBuf>,
 }
 
 pub const DEFAULT_CAP: usize = 64 << 20;
 
 impl Io {
     pub fn new() -> Io {
-        Io { data: Arc::new(Mutex::new(Vec::new())), pos: 0, ctl: None, cap: DEFAULT_CAP }
+        Io { data: Arc::new(Mutex::new(Vec::new())), pos: 0, ctl: None, cap: DEFAULT_CAP, file: None, file_path: None }
     }
     pub fn from_bytes(bytes: Vec<u8>) -> Io {
-        Io { data: Arc::new(Mutex::new(bytes)), pos: 0, ctl: None, cap: DEFAULT_CAP }
+        Io { data: Arc::new(Mutex::new(bytes)), pos: 0, ctl: None, cap: DEFAULT_CAP, file: None, file_path: None }
     }
     pub fn with_ctl(mut self, ctl: Arc<Mutex<Ctl>>) -> Io {
         self.ctl = Some(ctl);
         self
     }
+    /// Backed by a real file (already opened read+write).
+    pub fn from_file(f: std::fs::File, path: std::path::PathBuf) -> Io {
+        Io { data: Arc::new(Mutex::new(Vec::new())), pos: 0, ctl: None, cap: DEFAULT_CAP, file: Some(Arc::new(Mutex::new(f))), file_path: Some(path) }
+    }
     pub fn snapshot(&self) -> Vec<u8> {
+        if let Some(p) = &self.file_path {
+            return std::fs::read(p).unwrap_or_default();
+        }
         self.data.lock().unwrap().clone()
     }
     pub fn len(&self) -> usize {
+        if let Some(p) = &self.file_path {
+            return std::fs::metadata(p).map(|m| m.len() as usize).unwrap_or(0);
+        }
         self.data.lock().unwrap().len()
     }
     /// A second handle on the same bytes (own position), without controller.
     pub fn peer(&self) -> Io {
-        Io { data: self.data.clone(), pos: 0, ctl: None, cap: self.cap }
+        Io { data: self.data.clone(), pos: 0, ctl: None, cap: self.cap, file: self.file.clone(), file_path: self.file_path.clone() }
     }
     /// A second handle on the same bytes that shares the controller.
     pub fn peer_ctl(&self) -> Io {
-        Io { data: self.data.clone(), pos: 0, ctl: self.ctl.clone(), cap: self.cap }
+        Io { data: self.data.clone(), pos: 0, ctl: self.ctl.clone(), cap: self.cap, file: self.file.clone(), file_path: self.file_path.clone() }
     }
 }
 
@@ -194,6 +207,13 @@ impl Read for Io {
                 }
             }
         }
+        if let Some(f) = &self.file {
+            let mut f = f.lock().unwrap();
+            f.seek(SeekFrom::Start(self.pos))?;
+            let n = f.read(&mut buf[..allowed])?;
+            self.pos += n as u64;
+            return Ok(n);
+        }
         let data = self.data.lock().unwrap();
         let len = data.len() as u64;
         if self.pos >= len {
@@ -223,6 +243,13 @@ impl Write for Io {
                 }
             }
         }
+        if let Some(f) = &self.file {
+            let mut f = f.lock().unwrap();
+            f.seek(SeekFrom::Start(self.pos))?;
+            let n = f.write(&buf[..allowed])?;
+            self.pos += n as u64;
+            return Ok(n);
+        }
         let mut data = self.data.lock().unwrap();
         if self.pos.saturating_add(allowed as u64) > self.cap as u64 {
             return Err(io::Error::new(io::ErrorKind::Other, "backend full (harness cap)"));
@@ -244,6 +271,9 @@ impl Write for Io {
                 return Err(e);
             }
         }
+        if let Some(f) = &self.file {
+            return f.lock().unwrap().flush();
+        }
         Ok(())
     }
 }
@@ -256,7 +286,7 @@ impl Seek for Io {
                 return Err(e);
             }
         }
-        let len = self.data.lock().unwrap().len() as i128;
+        let len = self.len() as i128;
         let new = match pos {
             SeekFrom::Start(p) => p as i128,
             SeekFrom::End(d) => len + d as i128,
